@@ -8,7 +8,7 @@
 
   Anchors (excelcompiler.py):
     417-461 `set_value`         -> `setValue`
-    463-472 `_reset`            -> `resetF`
+    463-478 `_reset`            -> `resetG`/`resetF` (with the pass-through of empty range nodes, f32e634)
     1040-1042 `needs_calc`      -> `cache i = none`
     765-838 `_evaluate_range/_evaluate` -> `evalF`
     708-763, 901-961 `_make_cells/_gen_graph/_process_gen_graph` -> `buildF`
@@ -103,20 +103,37 @@ def evalF : Nat → Nat → State α → α × State α
         let v := f i (valueOf wb s1)
         (v, { s1 with cache := update s1.cache i (some v) })
 
-/-- one step of the successor loop of `_reset`: `if child_cell.value is not None: self._reset(child_cell)` -/
-def resetStep (r : Nat → State α → State α) (st : State α) (j : Nat) : State α :=
+/-- one step of the successor loop of `_reset`, with the pass-through rule as a parameter:
+    `if child_cell.value is not None: self._reset(child_cell)`
+    `elif <pass child>: self._reset(child_cell, force=True)` -/
+def resetStepG (pass : Nat → Bool) (r : Nat → State α → State α) (st : State α) (j : Nat) : State α :=
   match st.cache j with
-  | none => st
   | some _ => r j st
+  | none => if pass j then r j st else st
 
-/-- `_reset`: stop at an empty node, else clear it and walk the successors (fuel `≥ n - k` suffices) -/
-def resetF : Nat → Nat → State α → State α
+/-- `_reset(cell, force=True)` (= `_reset(cell)` on a computed cell; the successor loop only calls it in these two
+    ways): clear the node and walk the successors (fuel `≥ n - k` suffices) -/
+def resetG (pass : Nat → Bool) : Nat → Nat → State α → State α
   | 0, _, s => s
   | fuel+1, k, s =>
-    match s.cache k with
-    | none => s
-    | some _ =>
-      (succs wb k).foldl (resetStep (resetF fuel)) { s with cache := update s.cache k none }
+    (succs wb k).foldl (resetStepG pass (resetG pass fuel)) { s with cache := update s.cache k none }
+
+/-- `child_cell.address.is_range` -/
+def isRange (j : Nat) : Bool :=
+  match wb.kind j with
+  | .range => true
+  | _ => false
+
+/-- the successor loop of `_reset` as the code has it since fix f32e634: stop at an empty cell, but pass through an
+    empty RANGE node (the operand ranges of an intersection are declared precedents that are never read, so they stay
+    empty after the first reset although their dependants are computed) -/
+def resetStep (r : Nat → State α → State α) (st : State α) (j : Nat) : State α :=
+  resetStepG (isRange wb) r st j
+
+def resetF (fuel : Nat) (k : Nat) (s : State α) : State α := resetG wb (isRange wb) fuel k s
+
+/-- the walk before f32e634 ("stopping at already-empty nodes", no pass-through); kept for the comparison theorems -/
+def resetFOld (fuel : Nat) (k : Nat) (s : State α) : State α := resetG wb (fun _ => false) fuel k s
 
 /-- `set_value` on a value cell that is in the cell map: compare with `eqv`, write, reset the dependants.
     Anything else (unknown address, formula cell, range) leaves the state unchanged (the code raises an
@@ -125,7 +142,16 @@ def setValue (eqv : α → α → Bool) (i : Nat) (v : α) (s : State α) : Stat
   if i < wb.n ∧ wb.kind i = .input ∧ s.built i = true then
     if eqv (s.inp i) v = true then s
     else
-      (succs wb i).foldl (resetStep (resetF wb wb.n))
+      (succs wb i).foldl (resetStep wb (resetF wb wb.n))
+        { s with inp := update s.inp i v, stored := fun _ => none }
+  else s
+
+/-- `setValue` with the walk before f32e634 (comparison theorems only) -/
+def setValueOld (eqv : α → α → Bool) (i : Nat) (v : α) (s : State α) : State α :=
+  if i < wb.n ∧ wb.kind i = .input ∧ s.built i = true then
+    if eqv (s.inp i) v = true then s
+    else
+      (succs wb i).foldl (resetStepG (fun _ => false) (resetFOld wb wb.n))
         { s with inp := update s.inp i v, stored := fun _ => none }
   else s
 
